@@ -11,6 +11,7 @@ Two kinds of theorem:
   source changes a guard the generated file changes and these stop type-checking.
 -/
 import PvModel.Perms
+import PvModel.PermsDriver
 import Generated.Handlers
 import Mathlib.Tactic.Tauto
 import Mathlib.Tactic.ByContra
@@ -262,7 +263,7 @@ theorem grants_change_only_by_permitted_update (s : State) (op : Op) :
   | reject a b c => left; exact (opResult_keeps fun s' h => rejectPayment_keeps h).1
   | cancelpay a b => left; exact (opResult_keeps fun s' h => cancelPayment_keeps h).1
   | retarget a b c => left; exact (opResult_keeps fun s' h => changeTarget_keeps h).1
-  | gov n c => left; rfl
+  | gov n c p => left; rfl
 
 theorem applyOp_authority (s : State) (op : Op) : (applyOp s op).1.authority = s.authority := by
   cases op with
@@ -281,7 +282,7 @@ theorem applyOp_authority (s : State) (op : Op) : (applyOp s op).1.authority = s
   | reject a b c => exact (opResult_keeps fun s' h => rejectPayment_keeps h).2
   | cancelpay a b => exact (opResult_keeps fun s' h => cancelPayment_keeps h).2
   | retarget a b c => exact (opResult_keeps fun s' h => changeTarget_keeps h).2
-  | gov n c => rfl
+  | gov n c p => rfl
 
 /-- The authority never changes, over any history. -/
 theorem authority_constant (s : State) (ops : List Op) : (run s ops).authority = s.authority := by
@@ -435,6 +436,45 @@ theorem changeTarget_frame {s s' : State} {signer ext nt : String} (q : Payment)
 /-- A governance-only endpoint lets exactly the authority through. -/
 theorem gov_only_authority (s : State) (c : String) : govAllowed s c = true ↔ c = s.authority := by
   simp [govAllowed]
+
+/-- Whatever a governance-only request names — any market, any subject account (the caller
+itself included), any denom, any kind of name — and whatever the caller holds (any grants, on
+any market, any orders, any payments): a caller other than the authority is turned away and
+nothing changes; the authority is let through. -/
+theorem gov_result_ignores_payload_and_standing (s : State) (n c : String) (p : GovPayload) :
+    applyOp s (.gov n c p) = (s, if c = s.authority then "pass" else "err:authority") := by
+  by_cases h : c = s.authority <;> simp [applyOp, govAllowed, h]
+
+theorem gov_rejects_every_non_authority (s : State) (n c : String) (p : GovPayload)
+    (h : c ≠ s.authority) : applyOp s (.gov n c p) = (s, "err:authority") := by
+  rw [gov_result_ignores_payload_and_standing]; simp [h]
+
+example : (applyOp { grants := Perm.all.map fun p => (1, "A", p) } (.gov "exchange.MsgGovCloseMarketRequest" "A"
+    { market := 1, subject := "A" })).2 = "err:authority" := by decide
+
+private theorem long_prefix_ne_ok (pre n : String) (h : 2 < pre.length) : pre ++ n ≠ "ok" := by
+  intro e
+  have h1 := congrArg String.length e
+  have h2 : "ok".length = 2 := by decide
+  rw [String.length_append, h2] at h1
+  omega
+
+/-- The checker's governance clause is exact on the observed result: an executed request
+(`pass #ok`) is reported iff the caller is not the authority; a caller that was turned away
+(`err:authority`) is reported iff it IS the authority; whatever the payload and the state. -/
+theorem gov_checker_exact (s : State) (n c : String) (p : GovPayload) :
+    (verdict s (.gov n c p) "pass" "#ok" = "ok" ↔ c = s.authority) ∧
+    (verdict s (.gov n c p) "err:authority" "" = "ok" ↔ c ≠ s.authority) := by
+  have e1 : ("fail:gov_rejects_authority:" : String).length = 27 := by decide
+  have e2 : ("fail:gov_endpoint_open:" : String).length = 23 := by decide
+  have n1 := long_prefix_ne_ok "fail:gov_rejects_authority:" n (by omega)
+  have n2 := long_prefix_ne_ok "fail:gov_endpoint_open:" n (by omega)
+  by_cases h : c = s.authority <;> simp [verdict, govAllowed, h, toString] <;> assumption
+
+/-- The frame checker accepts exactly the canonical rendering of the model's own grants. -/
+theorem dump_checker_accepts_exact_effect (s : State) :
+    dumpVerdict s (dump s) = "ok" := by
+  simp [dumpVerdict]
 
 /-! ## Facts regenerated from the Go source -/
 
